@@ -1,0 +1,98 @@
+//! Read-only snapshot of the private indexes of a `Graph`, for external verification tooling.
+//! Compiled only with the cargo feature `verif_hooks`; adds no behaviour to the crate.
+use super::Graph;
+use std::fmt::Display;
+use std::hash::Hash;
+
+/// A plain-data copy of every private index of a [Graph](../struct.Graph.html).
+/// Hash-based containers are copied out in their iteration order (unspecified).
+#[derive(Clone, Debug)]
+pub struct VerifSnapshot<T> {
+    /// `nodes_map`: name -> position
+    pub nodes_map: Vec<(T, usize)>,
+    /// `nodes_map_rev`: position -> name
+    pub nodes_map_rev: Vec<(usize, T)>,
+    /// `nodes_vec`: names in position order
+    pub nodes_vec: Vec<T>,
+    /// `edges`: (u, v) key -> the (u, v, weight) of every edge stored under that key, in order
+    pub edges: Vec<((T, T), Vec<(T, T, f64)>)>,
+    /// `edges_map`: (position, position) key -> the (u, v, weight) of every edge stored under it
+    pub edges_map: Vec<((usize, usize), Vec<(T, T, f64)>)>,
+    /// `successors`: name -> set of names
+    pub successors: Vec<(T, Vec<T>)>,
+    /// `successors_map`: position -> set of positions
+    pub successors_map: Vec<(usize, Vec<usize>)>,
+    /// `successors_vec`: per position, (position, weight) in stored order
+    pub successors_vec: Vec<Vec<(usize, f64)>>,
+    /// `predecessors`: name -> set of names
+    pub predecessors: Vec<(T, Vec<T>)>,
+    /// `predecessors_map`: position -> set of positions
+    pub predecessors_map: Vec<(usize, Vec<usize>)>,
+    /// `predecessors_vec`: per position, (position, weight) in stored order
+    pub predecessors_vec: Vec<Vec<(usize, f64)>>,
+}
+
+impl<T, A> Graph<T, A>
+where
+    T: Eq + Clone + PartialOrd + Ord + Hash + Send + Sync + Display,
+    A: Clone,
+{
+    /// Returns a copy of all private indexes. Read-only.
+    pub fn verif_snapshot(&self) -> VerifSnapshot<T> {
+        let edge_list = |v: &Vec<std::sync::Arc<crate::Edge<T, A>>>| {
+            v.iter()
+                .map(|e| (e.u.clone(), e.v.clone(), e.weight))
+                .collect::<Vec<_>>()
+        };
+        VerifSnapshot {
+            nodes_map: self.nodes_map.iter().map(|(k, v)| (k.clone(), *v)).collect(),
+            nodes_map_rev: self
+                .nodes_map_rev
+                .iter()
+                .map(|(k, v)| (*k, v.name.clone()))
+                .collect(),
+            nodes_vec: self.nodes_vec.iter().map(|n| n.name.clone()).collect(),
+            edges: self
+                .edges
+                .iter()
+                .map(|(k, v)| (k.clone(), edge_list(v)))
+                .collect(),
+            edges_map: self
+                .edges_map
+                .iter()
+                .flat_map(|(u, hm)| hm.iter().map(move |(v, es)| ((*u, *v), es)))
+                .map(|(k, es)| (k, edge_list(es)))
+                .collect(),
+            successors: self
+                .successors
+                .iter()
+                .map(|(k, v)| (k.clone(), v.iter().cloned().collect()))
+                .collect(),
+            successors_map: self
+                .successors_map
+                .iter()
+                .map(|(k, v)| (*k, v.iter().copied().collect()))
+                .collect(),
+            successors_vec: self
+                .successors_vec
+                .iter()
+                .map(|l| l.iter().map(|a| (a.node_index, a.weight)).collect())
+                .collect(),
+            predecessors: self
+                .predecessors
+                .iter()
+                .map(|(k, v)| (k.clone(), v.iter().cloned().collect()))
+                .collect(),
+            predecessors_map: self
+                .predecessors_map
+                .iter()
+                .map(|(k, v)| (*k, v.iter().copied().collect()))
+                .collect(),
+            predecessors_vec: self
+                .predecessors_vec
+                .iter()
+                .map(|l| l.iter().map(|a| (a.node_index, a.weight)).collect())
+                .collect(),
+        }
+    }
+}
